@@ -37,7 +37,7 @@ type pProbe struct {
 }
 
 type pWrite struct {
-	Op  string `json:"op"` // create | touch | addfin | remfin | teardown | destroy | sleep | quiesce | addinput
+	Op  string `json:"op"` // create | touch | addfin | remfin | teardown | destroy | sleep | quiesce | addinput | delinput | kindinput
 	Typ string `json:"typ,omitempty"`
 	ID  string `json:"id,omitempty"`
 	D   int64  `json:"d,omitempty"`
@@ -533,6 +533,42 @@ func runPipeScenario(t *testing.T, sc pScenario, table bool) (res pResult) {
 				pi := probeByName[w.Probe]
 				pi.Ins = append(append([]inSpec(nil), pi.Ins[:w.N]...), pi.Ins[w.N+1:]...)
 				res.flags["dynamic_input_removed"] = true
+			case "kindinput":
+				// the same input key is passed again with another kind (e.g. destroy-ready -> weak): from now on the new
+				// kind's rules decide which changes wake the controller
+				pr, ok := rprobes[w.Probe]
+				if !ok || w.In == nil {
+					continue
+				}
+
+				pr.mu.Lock()
+				r := pr.rt
+
+				if r == nil || w.N >= len(pr.ins) || int(pr.ins[w.N].Kind) == w.In.Kind {
+					pr.mu.Unlock()
+
+					continue
+				}
+
+				pr.ins = append([]controller.Input(nil), pr.ins...)
+				pr.ins[w.N].Kind = controller.InputKind(w.In.Kind)
+				ins := append([]controller.Input(nil), pr.ins...)
+				pr.mu.Unlock()
+
+				if err := r.UpdateInputs(ins); err != nil {
+					t.Fatalf("UpdateInputs: %v", err)
+				}
+
+				pi := probeByName[w.Probe]
+				pi.Ins = append([]inSpec(nil), pi.Ins...)
+				pi.Ins[w.N].Kind = w.In.Kind
+
+				if inputAdded[w.Probe] == nil {
+					inputAdded[w.Probe] = map[string]int64{}
+				}
+
+				inputAdded[w.Probe][pi.Ins[w.N].coq()] = book.seq.Add(1)
+				res.flags["dynamic_input_kind_changed"] = true
 			case "addinput":
 				pr, ok := rprobes[w.Probe]
 				if !ok {
@@ -827,6 +863,18 @@ func TestC05(t *testing.T) {
 				}
 			}
 
+			if r.chance(1, 4) {
+				// change the kind of an input of a running controller
+				for _, p := range sc.Probes {
+					if p.Flavour == "r" && len(p.Ins) >= 1 && !p.Late {
+						at := r.intn(len(sc.Steps))
+						sc.Steps = append(sc.Steps[:at:at], append([]pWrite{{Op: "quiesce"}, {Op: "kindinput", Probe: p.Name, N: r.intn(len(p.Ins)), In: &inSpec{Kind: r.intn(3)}}}, sc.Steps[at:]...)...)
+
+						break
+					}
+				}
+			}
+
 			if r.chance(1, 3) {
 				// drop one of several inputs of a running controller (by-kind and by-id inputs on one kind included)
 				for _, p := range sc.Probes {
@@ -841,6 +889,14 @@ func TestC05(t *testing.T) {
 
 			cases = append(cases, c05Case{Kind: "run", Sc: sc})
 		}
+
+		// corpus: a destroy-ready input turned into a weak one (and back): the new kind's wake-up rules apply from then on
+		cases = append(cases, c05Case{Kind: "run", Sc: pScenario{
+			Probes: []pProbe{{Name: "c0", Flavour: "r", Ins: []inSpec{{NS: "n1", Typ: "T", Kind: 2}}}},
+			Steps: []pWrite{{Op: "create", Typ: "T", ID: "a"}, {Op: "quiesce"}, {Op: "kindinput", Probe: "c0", N: 0, In: &inSpec{Kind: 0}}, {Op: "quiesce"},
+				{Op: "create", Typ: "T", ID: "b"}, {Op: "touch", Typ: "T", ID: "a"}, {Op: "quiesce"}, {Op: "kindinput", Probe: "c0", N: 0, In: &inSpec{Kind: 2}}, {Op: "quiesce"},
+				{Op: "teardown", Typ: "T", ID: "a"}},
+		}})
 
 		// corpus: by-kind and by-id input on the same kind, the by-id one is dropped later
 		cases = append(cases, c05Case{Kind: "run", Sc: pScenario{
